@@ -75,3 +75,46 @@ func VerifC24Kernel() {
 	}
 	verifAssert((err == nil) == ok, "accepted-iff-tags-nonzero-and-distinct")
 }
+
+func init() { verifRegister("VerifC24Compile", VerifC24Compile) }
+
+// VerifC24Compile: the whole Kernel.Compile on a small schema whose constructor tags are symbolic: it accepts the schema
+// iff the tags are non-zero and pairwise distinct (so the checker is not only correct but actually consulted).
+func VerifC24Compile() {
+	text := "int#a8509bda ? = Int;\na.one x:int = a.U;\na.two y:int = a.U;\na.solo z:int = a.Solo;\n---functions---\n@read a.get q:int = a.U;\n"
+	tl, err := tlast.ParseTLFile(text, "s.tl", tlast.LexerOptions{AllowDirty: true})
+	if err != nil {
+		panic("harness schema: " + err.Error())
+	}
+	var ids []uint32
+	for _, c := range tl.Combinators() {
+		if c.Builtin {
+			ids = append(ids, c.Construct.ID)
+			continue
+		}
+		c.Construct.ID = verifU32()
+		c.Construct.IDExplicit = true
+		ids = append(ids, c.Construct.ID)
+	}
+	k := NewKernel(&OptionsKernel{TypesWhiteList: "*", ErrorWriter: verifDiscardW{}})
+	k.filesTL1 = append(k.filesTL1, tl)
+	err = k.Compile()
+	ok := true
+	for i := range ids {
+		ok = verifAnd(ok, ids[i] != 0)
+		for j := 0; j < i; j++ {
+			ok = verifAnd(ok, ids[i] != ids[j])
+		}
+	}
+	if err == nil {
+		verifCover("compiled")
+	} else {
+		verifCover("rejected")
+	}
+	verifAssert(verifImplies(!ok, err != nil), "colliding-or-zero-tags-rejected-by-compile")
+	verifAssert(verifImplies(ok, err == nil), "distinct-nonzero-tags-accepted-by-compile")
+}
+
+type verifDiscardW struct{}
+
+func (verifDiscardW) Write(p []byte) (int, error) { return len(p), nil }
